@@ -2,7 +2,7 @@
 spec/Data.tla (request queue, Wait/Cancel on arbitrary subsets), Data_MC (design check, generator),
 Trace_Data (validation of ids, statuses, read buffers, pending count, file content after every call)."""
 import random
-import vlib, datagen, datacheck
+import vlib, datagen, datacheck, mpgen, c05
 
 PID = "C02"
 
@@ -24,14 +24,31 @@ def run(tier, seed):
         {"op": "get", "kind": "i", "req": "d", "v": 0, "form": "vara", "itype": "int", "start": [0, 2], "count": [1, 1], "n": 1, "obs": datagen.OBS},
         {"op": "get", "kind": "i", "req": "e", "v": 0, "form": "vars", "itype": "int", "start": [0, 0], "count": [2, 2], "stride": [1, 2], "n": 4, "obs": datagen.OBS},
         {"op": "wait", "mode": "coll", "special": "ALL", "obs": datagen.OBS}]})
-    return datacheck.run(PID, tier, seed, execs, mc, header=datagen.header_for(V, D),
+    res = datacheck.run(PID, tier, seed, execs, mc, header=datagen.header_for(V, D),
                          extra_cov={"rule": "random walks of the Data model (TLC -simulate of Nonblock_MC, depth %d): posts of iput/bput/iget drawn from ALL "
                                             "legal (start,count,stride) of F[6][4], R[t][4], G[t][2], H[4] and 3-element varn lists, waits of arbitrary "
                                             "subsets in any id order (NC_REQ_NULL padding, *_ALL forms), cancels, interleaved with blocking calls; each request is issued through a "
                                             "randomly chosen equivalent API form; distinct_nontrivial counts distinct concrete calls" % depth,
                                     "walks": len(ws), "exhaustive": False},
                          assumptions=["no element is written twice among pending requests (generator restriction stated by the property)",
-                                      "single process; multi-process completion is covered by C05/C08"])
+                                      "the Data walks run on one process; completion by wait_all on 2-3 processes, with ranks holding "
+                                      "different numbers (or none) of requests, is validated against MP.tla (section below; C05/C08 go deeper)"])
+    # ---- wait / wait_all on several processes (MP.tla): ranks with different numbers of pending requests, some with none
+    mcM = vlib.tlc_check("MP_MC.tla", "cfg/MP_mc.cfg", workers=8)
+    if not mcM["ok"]:
+        raise vlib.InfraError("MP design check failed:\n" + mcM["out"][-3000:])
+    exM = []
+    for np_, cfg in [(2, "cfg/MP_sim2.cfg"), (3, "cfg/MP_sim.cfg")]:
+        hs = [h for h in c05.walks("MP_MC.tla", cfg, 400 if tier == "quick" else 4000, 12, seed + 40 + np_) if '"wait' in __import__("json").dumps(h)]
+        for n, h in enumerate(hs[:60 if tier == "quick" else 600]):
+            tr = mpgen.Translator(random.Random(seed * 31 + n), np_)
+            exM.append({"x": "m%d_%d" % (np_, n), "np": np_, "steps": mpgen.fixture(fmt=[None, "64BIT_OFFSET", "64BIT_DATA"][n % 3]) + tr.steps(h)})
+    rM = c05.run_mp(PID, tier, seed, exM, "cfg/Trace_MP.cfg", mcM, "")
+    for v in rM["violations"]:
+        res["violations"].append(dict(v, sig="family=MP;%s" % v["sig"]))
+    res["coverage"]["multi_process_waits"] = {k: rM["coverage"].get(k) for k in ("evaluations", "traces_validated_against_impl", "trace_states", "rejected_first_pass")}
+    res["coverage"]["evaluations"] = (res["coverage"].get("evaluations") or 0) + len(exM)
+    return res
 
 
 def replay(path):
